@@ -509,21 +509,73 @@ pub fn http_burst(port: u16, doc: &[u8], add_metadata: Option<bool>, n: usize, r
     all
 }
 
+thread_local! {
+    /// how the next requests of this thread are put on the wire (0 = plainly)
+    static HTTP_STYLE: std::cell::Cell<u64> = const { std::cell::Cell::new(0) };
+}
+
+/// Vary what the statements do not fix about a request: its Content-Type (none, several
+/// media types, parameters with non-ASCII bytes) and the pieces the body is written in
+/// (cuts anywhere, also inside a multi-byte character, a few milliseconds apart).
+pub fn set_http_style(seed: u64) {
+    HTTP_STYLE.with(|c| c.set(seed));
+}
+
 pub fn http_post(port: u16, doc: &[u8], add_metadata: Option<bool>, timeout: Duration) -> Option<HttpResult> {
+    let style = HTTP_STYLE.with(|c| c.get());
+    let mut rng = crate::rng::Rng::sub(style, "http-style");
+    let content_types: &[Option<&[u8]>] = &[
+        Some(b"text/plain"),
+        Some(b"application/xml"),
+        Some(b"image/svg+xml"),
+        Some(b"text/xml; charset=utf-8"),
+        Some(b"application/x-www-form-urlencoded"),
+        Some(b"application/octet-stream"),
+        Some(b"multipart/form-data; boundary=x"),
+        Some(b"text/xml; name=\"caf\xc3\xa9.xml\""),
+        Some(b"text/xml; name=\"caf\xe9.xml\""),
+        None,
+    ];
+    let ct: Option<&[u8]> = if style == 0 { Some(b"text/plain") } else { content_types[rng.usize(content_types.len())] };
+    // body pieces
+    let mut cuts: Vec<usize> = Vec::new();
+    if style != 0 && doc.len() > 2 && rng.chance(2, 3) {
+        let multibyte: Vec<usize> = (1..doc.len()).filter(|i| doc[*i] & 0xC0 == 0x80).collect();
+        for _ in 0..1 + rng.usize(3) {
+            let c = if !multibyte.is_empty() && rng.chance(1, 2) { multibyte[rng.usize(multibyte.len())] } else { 1 + rng.usize(doc.len() - 1) };
+            cuts.push(c);
+        }
+        cuts.sort();
+        cuts.dedup();
+    }
     {
         let mut s = std::net::TcpStream::connect(("127.0.0.1", port)).ok()?;
         s.set_read_timeout(Some(timeout)).ok()?;
         s.set_write_timeout(Some(timeout)).ok()?;
+        let _ = s.set_nodelay(true);
         let uri = match add_metadata {
             Some(v) => format!("/api/transform?add_metadata={v}"),
             None => "/api/transform".to_string(),
         };
-        let head = format!(
-            "POST {uri} HTTP/1.1\r\nHost: localhost\r\nContent-Type: text/plain\r\nContent-Length: {}\r\nConnection: close\r\n\r\n",
-            doc.len()
-        );
-        s.write_all(head.as_bytes()).ok()?;
-        s.write_all(doc).ok()?;
+        let mut head = format!("POST {uri} HTTP/1.1\r\nHost: localhost\r\n").into_bytes();
+        if let Some(ct) = ct {
+            head.extend_from_slice(b"Content-Type: ");
+            head.extend_from_slice(ct);
+            head.extend_from_slice(b"\r\n");
+        }
+        head.extend_from_slice(format!("Content-Length: {}\r\nConnection: close\r\n\r\n", doc.len()).as_bytes());
+        s.write_all(&head).ok()?;
+        if cuts.is_empty() {
+            s.write_all(doc).ok()?;
+        } else {
+            let mut from = 0;
+            for c in cuts.iter().chain(std::iter::once(&doc.len())) {
+                std::thread::sleep(Duration::from_millis(4));
+                s.write_all(&doc[from..*c]).ok()?;
+                let _ = s.flush();
+                from = *c;
+            }
+        }
         let mut resp = Vec::new();
         let start = Instant::now();
         let mut buf = [0u8; 65536];
@@ -843,4 +895,32 @@ pub fn watch_session(env: &WorkerEnv, args: Vec<String>, dir: &Path, saves: &[Ve
     let _ = child.kill();
     let _ = child.wait();
     Ok(obs)
+}
+
+/// A "device full" node of the worker's own (major 1, minor 7, like /dev/full) inside its
+/// scratch directory: code under test which replaces its output path (rename over it) then
+/// destroys this node and not the system's. Falls back to /dev/full if the node cannot be
+/// made and /dev/full still is what it should be; None if there is no such device to be had.
+pub fn full_device(env: &WorkerEnv) -> Option<PathBuf> {
+    use std::os::unix::fs::{FileTypeExt, MetadataExt};
+    let is_full = |p: &Path| std::fs::metadata(p).map(|m| m.file_type().is_char_device() && m.rdev() == libc::makedev(1, 7)).unwrap_or(false);
+    let own = env.scratch.join("full-device");
+    if !is_full(&own) {
+        let _ = std::fs::remove_file(&own);
+        let _ = std::fs::create_dir_all(&env.scratch);
+        if let Ok(c) = std::ffi::CString::new(own.as_os_str().as_encoded_bytes()) {
+            unsafe {
+                libc::mknod(c.as_ptr(), libc::S_IFCHR | 0o666, libc::makedev(1, 7));
+            }
+        }
+    }
+    if is_full(&own) {
+        return Some(own);
+    }
+    let sys = PathBuf::from("/dev/full");
+    if is_full(&sys) {
+        Some(sys)
+    } else {
+        None
+    }
 }
